@@ -86,7 +86,7 @@ FAMILIES = [WritePathFamily, SearchFamily, MinMaxFamily, MergeFamily, QueryFamil
 # C11: MergeMonitor.tla evaluates C11_BagUnchanged / C11_KeysKept on populations of many files (several merge groups per call),
 # which the search cases (at most three files) do not build
 # C03: QueryMonitor.tla's C03_KeptRowsIntact (rows held across Close / cancel and a later scan of the same blocks)
-SECONDARY = {"C23": [QueryFamily], "C06": [FSStoreFamily], "C11": [MergeFamily], "C03": [QueryFamily]}
+SECONDARY = {"C23": [QueryFamily], "C06": [FSStoreFamily], "C11": [MergeFamily], "C03": [QueryFamily], "C14": [FSStoreFamily]}
 
 # every harness runs with captured stdout/stderr and every monitor carries C27_Silent: for C27 the other
 # families' verdicts are folded in when their result for this tree is already cached (never computed for it)
